@@ -19,10 +19,5 @@ Lemma pin_eff_init_res_ok :
   forall r, init_res r = existsb (teqb (erule_text r)) pin_eff_init_true.
 Proof. destruct r; vm_compute; reflexivity. Qed.
 
-(* the modelled functions are textually the ones the model was aligned with *)
-From CV Require Import PinChecks.Frozen.
-Lemma pin_body_eff_ok :
-  pin_body_eff_new_stream = frozen_eff_new_stream /\
-  pin_body_eff_next = frozen_eff_next /\
-  pin_body_eff_push_effect = frozen_eff_push_effect.
-Proof. repeat split; reflexivity. Qed.
+(* (no body-hash pins for effector.rs: its functions are TRANSLATED on every run and proved equal to the
+   model in PcEffectorGen.v, which a meaning-preserving rewrite keeps) *)
